@@ -1,11 +1,13 @@
-//go:build verif
+//go:build verif && verif_c04wb
 
 /*
  * Verification hook for property C04 (build tag "verif"): exposes the four views
  * newRunnablePacker derives from a subset of native implementations, so that the
  * correspondence harness can call the Stream and Collect views of a lambda directly
  * (inside a graph only the Invoke and Transform views of a node are reachable).
- * Add-only; compiled out of every normal build.
+ * Add-only; compiled out of every normal build.  A white-box group of its own (sub-tag verif_c04wb): only the
+ * C04 harness asks for it, and when it no longer compiles against a tree (a rename of newRunnablePacker) the
+ * C04 check is built without the sub-tag and runs its black-box tie only.
  */
 
 package compose
